@@ -719,3 +719,52 @@ row("reduce_max", "B", "S", prop="C09")(_reduce_minmax("max"))
 row("reduce_min", "B", "S", prop="C09")(_reduce_minmax("min"))
 # hadd is the generic integer reduction kernel reduce_add forwards to
 ROWS.setdefault(("hadd", "B"), []).extend(ROWS[("reduce_add", "B")])
+
+
+# ---- C16: complex batches, exact clauses -------------------------------------------------------------------------------------------------
+def _cplx_lanewise(re_spec, im_spec):
+    def build(ctx):
+        R = ctx.ret = bind_ret(ctx, "C")
+        ens = []
+        for i in range(ctx.n):
+            ra = [a.re(i) for a in ctx.args]
+            ia = [a.im(i) for a in ctx.args]
+            ens.append(ctx.eq(R.re(i), ctx.spec(re_spec, *ra) if re_spec else ra[0]))
+            ens.append(ctx.eq(R.im(i), ctx.spec(im_spec, *ia) if im_spec else ia[0]))
+        ctx.ensures += conj(ens)
+    return build
+
+
+row("add", "CC", "C", types=FLOAT_TYPES, mode="ufadd", prop="C16")(_cplx_lanewise("add", "add"))
+row("sub", "CC", "C", types=FLOAT_TYPES, mode="ufadd", prop="C16")(_cplx_lanewise("sub", "sub"))
+row("neg", "C", "C", types=FLOAT_TYPES, prop="C16")(_cplx_lanewise("neg", "neg"))
+row("conj", "C", "C", types=FLOAT_TYPES, prop="C16")(_cplx_lanewise(None, "neg"))
+
+
+def _cplx_part(which):
+    def build(ctx):
+        R = ctx.ret = bind_ret(ctx, "B")
+        z = ctx.args[0]
+        ctx.ensures += conj(["(%s == %s)" % (R.lane(i), z.re(i) if which == "re" else z.im(i)) for i in range(ctx.n)])
+    return build
+
+
+row("real", "C", "B", types=FLOAT_TYPES, prop="C16")(_cplx_part("re"))
+row("imag", "C", "B", types=FLOAT_TYPES, prop="C16")(_cplx_part("im"))
+
+
+def _cplx_cmp(neq):
+    def build(ctx):
+        R = ctx.ret = bind_ret(ctx, "M")
+        a, b = ctx.args
+        ens = []
+        for i in range(ctx.n):
+            both = "(%s && %s)" % (ctx.spec("eq", a.re(i), b.re(i)), ctx.spec("eq", a.im(i), b.im(i)))
+            ens.append(R.is_true_iff(i, ("!" + both) if neq else both))
+        ctx.ensures += conj(ens)
+        ctx.ensures += conj(R.wf())
+    return build
+
+
+row("eq", "CC", "M", types=FLOAT_TYPES, prop="C16")(_cplx_cmp(False))
+row("neq", "CC", "M", types=FLOAT_TYPES, prop="C16")(_cplx_cmp(True))
